@@ -194,6 +194,24 @@ def reject_cases(seed=0):
             left = set(os.listdir(td)) - before
             if left:
                 bad.append(dict(what="rejected seed left files behind", case=tag, files=sorted(left)))
+        # the device a solution was computed on, modified in place afterwards, is a DIFFERENT device: its old solution is no valid seed
+        for tag, change in (("layer changed in place", lambda d: setattr(d.layer, "london_lambda", d.layer.london_lambda * 3)),
+                            ("hole moved in place", lambda d: (d.holes[0].translate(dx=0.3, inplace=True), d.make_mesh(max_edge_length=0.5, smooth=5)))):
+            d3 = make_device()
+            s3 = tdgl.solve(d3, tdgl.SolverOptions(solve_time=0.1, output_file=os.path.join(td, f"seed3_{n}.h5")), applied_vector_potential=0.1)
+            change(d3)
+            before = set(os.listdir(td))
+            n += 1
+            try:
+                tdgl.solve(d3, tdgl.SolverOptions(solve_time=0.1, output_file=os.path.join(td, f"s3_{n}.h5")), applied_vector_potential=0.1, seed_solution=s3)
+                bad.append(dict(what="seed solution accepted although the device was modified in place after it was computed", case=tag))
+            except ValueError:
+                pass
+            except Exception as e:  # noqa
+                bad.append(dict(what="seed from a modified device not rejected up front", case=tag, error=f"{type(e).__name__}: {str(e)[:100]}"))
+            left = set(os.listdir(td)) - before
+            if left:
+                bad.append(dict(what="rejected seed left files behind", case=tag, files=sorted(left)))
         # invalid polygons / devices
         for tag, fn in (("self-intersecting polygon", lambda: tdgl.Polygon("bow", points=[(0, 0), (1, 1), (1, 0), (0, 1)])),
                         ("duplicate terminal names", lambda: tdgl.Device("x", layer=layer, film=tdgl.Polygon("f", points=box(2, 2)),
